@@ -294,7 +294,11 @@ def check_items(ctx, facts, params):
         good, why = bool(res), ''
         acc = []
         for st, rv in res:
-            av = [x for x in st.iv if D.NAME.get(x) == 'a'][0]
+            avs = [x for x in st.iv if D.NAME.get(x) == 'a']
+            if not avs:
+                good, why = False, 'the analysis lost track of the written number'
+                continue
+            av = avs[0]
             if is_ok(rv):
                 ev = events(st)
                 if len(ev) != 1 or ev[0][0] != 'insert' or ev[0][1][0] != 'i':
@@ -336,8 +340,12 @@ def check_items(ctx, facts, params):
         top = 7 if dow else mx
         seen_ok = False
         for st, rv in res:
-            av = [x for x in st.iv if D.NAME.get(x) == 'a'][0]
-            bv = [x for x in st.iv if D.NAME.get(x) == 'b'][0]
+            avs = [x for x in st.iv if D.NAME.get(x) == 'a']
+            bvs = [x for x in st.iv if D.NAME.get(x) == 'b']
+            if not avs or not bvs:
+                good, why = False, 'the analysis lost track of the written numbers'
+                continue
+            av, bv = avs[0], bvs[0]
             (al, ah), (bl, bh) = D.get_iv(st, av), D.get_iv(st, bv)
             if is_ok(rv):
                 seen_ok = True
@@ -424,6 +432,45 @@ def check_items(ctx, facts, params):
     ctx.cov['trusted_base'] += ['vf/models.py rows: ' + ', '.join(sorted(I.models_used))[:600]]
 
 
+def whitespace_rule(ctx, facts):
+    """fields are separated by any run of whitespace: parse_expression on exact expressions with tabs, double and outer blanks"""
+    span = facts.bodies[EXPR]['span']
+    total = good = 0
+    for text, want in (('1 2 3 4 5', ['1', '2', '3', '4', '5']), ('1  2\t3 \t 4 5', ['1', '2', '3', '4', '5']), (' 1 2 3 4 5 ', ['1', '2', '3', '4', '5']),
+                       ('1 2 3 4', None), ('1 2 3 4 5 6', None), ('', None)):
+        N = Numeric(ctx, 'default', max_disj=100, max_steps=100_000)
+        I = N.I
+        RT.install(I)
+        RT.install_exact_strings(I)
+        got = []
+
+        def part(I_, st, args, dty, site, got=got):
+            sv = strv_of(I_, st, args[0])
+            xt = I_.xtext.get(sv.ident) if sv is not None else None
+            got.append(RT._text_of(xt) if xt is not None else None)
+            s1 = st.clone()
+            return [(s1, ok(I_.top(s1, dty['args'][0], 'set')))]
+        I.contracts[PART] = part
+
+        def expr(I_, st, ty, text=text):
+            return ('str', RT.new_string(I_, st, RT.XText(lit(text), {}, False)))
+        I.return_partition[EXPR] = lambda I_, st, v: id(st)
+        N.run(EXPR, overrides={'expression': expr}, variants=('fixed',))
+        res = [rv for _a, _s, outs in N.results.get(EXPR, []) for _st, rv in outs]
+        total += 1
+        if want is None:
+            okk = bool(res) and all(is_err(rv) for rv in res) and not got
+            what = 'must be rejected (not five fields)'
+        else:
+            okk = bool(res) and all(is_ok(rv) for rv in res) and got == want
+            what = f'must be split into the fields {want}'
+        if okk:
+            good += 1
+        else:
+            ctx.finding(f'C16:FIELDS|{text!r}', 'C16-T whitespace separated fields', span, f'parse_expression({text!r}) {what}; fields handed on: {got}, results: {["Ok" if is_ok(r) else "Err" if is_err(r) else "?" for r in res]}')
+    ctx.rule('C16-T five fields separated by runs of whitespace', total, good, floor=6)
+
+
 def check(ctx):
     N0 = Numeric(ctx)
     facts = N0.facts
@@ -431,6 +478,7 @@ def check(ctx):
         if not ctx.anchor(facts.bodies, f, 'C16 anchors'):
             return
     params = table_rule(ctx, facts)
+    whitespace_rule(ctx, facts)
     if len(params) == 5:
         check_items(ctx, facts, params)
     ctx.cov['entries'] += [EXPR, PART]
